@@ -227,7 +227,9 @@ def run_batch(engine, seed, tier, n_runs, workers=16, start_index=0, wall_budget
     total = Aggregate()
     # generous: every run could hit its watchdog
     for pid, rfd, n in procs:
-        hard = time.monotonic() + (wall_budget or 0) + per_run_timeout * 3 + n * 0.5 + 600
+        # safety net only (every run has its own watchdog inside the worker): must never fire on a merely slow,
+        # heavily loaded machine
+        hard = time.monotonic() + (wall_budget or 0) + n * min(per_run_timeout, 30.0) + 3600
         data = _read_all(rfd, hard)
         os.close(rfd)
         if data is None:
